@@ -27,6 +27,7 @@ anything) and by `replay` (cold run, then a run after one sweep of the spine on 
 from __future__ import annotations
 
 import itertools
+import os
 import math
 
 import numpy as np
@@ -106,7 +107,9 @@ _BURN_TABLES = [
     [1500.0, 1200.0, 900.0, 700.0, 650.0, 600.0, 550.0, 500.0, 450.0, 400.0, 350.0],
 ]
 
-FUEL_NAMES = ['jetA', 'SAF', 'zero-sulfur', 'yield0', 'yield1', 'no-lifecycle']
+# 'same-name' is a different fuel (other CO2/H2O indices, energy content) carrying the SAME name as jetA:
+# anything keyed by the fuel's name instead of the fuel collides with it
+FUEL_NAMES = ['jetA', 'SAF', 'zero-sulfur', 'yield0', 'yield1', 'no-lifecycle', 'same-name']
 
 # synthetic LTO data sets (idle, approach, climb, take-off); None = shipped engine
 LTO_SETS = {
@@ -294,6 +297,7 @@ def _load_shared():
     fuels['yield0'] = Fuel.model_validate({**d, 'sulfate_yield_nom': 0.0})
     fuels['yield1'] = Fuel.model_validate({**d, 'sulfate_yield_nom': 1.0})
     fuels['no-lifecycle'] = Fuel.model_validate({**d, 'lifecycle_CO2': None})
+    fuels['same-name'] = Fuel.model_validate({**d, 'EI_CO2': 2900.0, 'EI_H2O': 1350.0, 'energy_MJ_per_kg': 44.1, 'fuel_sulfur_content_nom': 15.0})
     _STATE['fuels'] = fuels
     _STATE['apus'] = {
         'real': pm.apu,
@@ -653,23 +657,35 @@ def run_case(case):
     return _run_single(case)
 
 
-def replay(case):
-    """Re-execute one recorded case in a fresh process. First cold (exactly what run_case does). If that is
-    clean, the recorded violation depended on state left behind by other evaluations: warm the process up
-    with one sweep of the spine on the shared objects and judge the case again, and compare the bit-exact
-    observation before and after the sweep."""
+def _replay_variant(arg):
+    """One replay attempt in its own freshly forked process (so that attempts cannot mask each other:
+    a cold evaluation fills caches under the case's own inputs)."""
     from vf.runner import jdump
 
+    how, case = arg
+    worker_init(os.environ.get('VERIF_TIER', 'quick'), 0)
+    if how != 'cold':
+        # what another case of the same worker may have left behind: one sweep of the configuration
+        # spine with every fuel of the alphabet on the shared objects (in both fuel orders: which
+        # evaluation fills a cache first can matter)
+        for fuel in (FUEL_NAMES if how == 'warm' else FUEL_NAMES[::-1]):
+            for cfg in SPINE_NAMES:
+                observe({'traj': 'T1', 'fuel': fuel, 'lto': 'real', 'apu': 'real', 'cls': 'narrow', 'cfg': cfg})
     vs = list(run_case(case)['violations'])
-    if vs:
-        return vs
-    first = jdump(observe(case))
-    for cfg in SPINE_NAMES:
-        observe({'traj': 'T1', 'fuel': 'jetA', 'lto': 'real', 'apu': 'real', 'cls': 'narrow', 'cfg': cfg})
-    vs = list(run_case(case)['violations'])
-    second = jdump(observe(case))
-    if first != second:
-        vs.append(V('order-dependence', f'first={first[:300]} second={second[:300]}'))
+    return vs, jdump(observe(case))
+
+
+def replay(case):
+    """Re-execute one recorded case: cold in one fresh process and, in a second fresh process, after a
+    warm-up sweep (violations that depend on state left behind by other evaluations only show there);
+    the bit-exact observations of the two must agree."""
+    from vf import runner
+
+    (cold, o1), (warm, o2), (wrev, o3) = runner.pool_map(
+        _replay_variant, [('cold', case), ('warm', case), ('warm-rev', case)], 3, None, ())
+    vs = cold or warm or wrev
+    if not vs and (o1 != o2 or o1 != o3):
+        vs = [V('order-dependence', f'cold={o1[:300]} after-sweep={(o2 if o1 != o2 else o3)[:300]}')]
     return vs
 
 
